@@ -881,19 +881,11 @@ func (sb *seqbag) Replace(old, new string, regex bool) (err error) {
 
 // Sorts sequences by name
 func (sb *seqbag) Sort() {
-	names := make([]string, len(sb.seqs))
-
-	// Get sequence names
-	for i, seq := range sb.seqs {
-		names[i] = seq.Name()
-	}
-
-	// Sort names
-	sort.Strings(names)
-	for i, n := range names {
-		s := sb.seqmap[n]
-		sb.seqs[i] = s
-	}
+	// The sequences themselves are sorted (not looked up by name),
+	// so that no sequence is lost when two of them have the same name
+	sort.SliceStable(sb.seqs, func(i, j int) bool {
+		return sb.seqs[i].name < sb.seqs[j].name
+	})
 }
 
 /*
